@@ -98,7 +98,8 @@ impl Streams {
 fn err_matches(spec: &ErrSpec, num: i16, text: &str) -> bool {
     match spec {
         ErrSpec::Any => true,
-        ErrSpec::Num(n) => *n == num,
+        // the statements quote the description of -113 ("Undefined header")
+        ErrSpec::Num(n) => *n == num && (*n != -113 || text == "Undefined header"),
         ErrSpec::Exact { num: n, text: t } => *n == num && t == text,
     }
 }
